@@ -7,10 +7,10 @@ def mc_slice(run, slice_name, maxgh, maxnodes=5, timeout=900, must=(), depth=100
            name='GraphSM slice %s, fixed 2-asset model, exhaustive' % slice_name, must_cover=must)
 
 
-def bfs_slice(run, slice_name, depth, keep=None, timeout=1200, maxnodes=5):
+def bfs_slice(run, slice_name, depth, keep=None, timeout=1200, maxnodes=5, env=None):
     run.gen_replay('Gen_GraphSM', 'Gen_GraphSM.cfg', 'harness.replay_gsm', {'langs': run.libs()},
-                   env={'VERIF_LANG': 'LTiny', 'VERIF_SLICE': slice_name, 'VERIF_DEPTH': depth, 'VERIF_MAXNODES': maxnodes},
-                   timeout=timeout, name='GraphSM slice %s: every behaviour of depth %d (fixed model)' % (slice_name, depth),
+                   env=dict({'VERIF_LANG': 'LTiny', 'VERIF_SLICE': slice_name, 'VERIF_DEPTH': depth, 'VERIF_MAXNODES': maxnodes}, **(env or {})),
+                   timeout=timeout, name='GraphSM slice %s: every behaviour of depth %d (fixed model)%s' % (slice_name, depth, ' ' + str(env) if env else ''),
                    keep=keep)
 
 
